@@ -67,8 +67,11 @@ def suite(wt):
         for f, k in cand:
             if os.path.exists(os.path.join(wt, f)):
                 sel = f"{f}::{k}::{name}" if k else f"{f}::{name}"
-                r = sh(f"cd {wt} && PYTHONPATH={wt}/src /venv/bin/python -m pytest -q -p no:cacheprovider -p no:xdist -o addopts='' '{sel}'", timeout=900)
-                ok = r.returncode == 0
+                for _attempt in range(3):     # timing-sensitive protocol tests flake under machine load
+                    r = sh(f"cd {wt} && PYTHONPATH={wt}/src /venv/bin/python -m pytest -q -p no:cacheprovider -p no:xdist -o addopts='' '{sel}'", timeout=900)
+                    ok = r.returncode == 0
+                    if ok:
+                        break
                 break
         if not ok:
             still.append(m)
